@@ -41,7 +41,9 @@ for n in names:
     target = (meta.get("property") or "")[:3] or None
     flagged = sorted(p for p, (rc, ls) in hit.items() if rc == 1)
     errored = sorted(p for p, (rc, ls) in hit.items() if rc not in (0, 1))
-    results[n] = {"property": target, "flagged_by": flagged, "checker_errors": errored, "caught": target in flagged if target else bool(flagged),
+    benign = meta.get("kind") == "benign-refactoring"
+    results[n] = {"property": target, "kind": "benign-refactoring" if benign else "seeded-fault", "flagged_by": flagged, "checker_errors": errored,
+                  "caught": (not flagged) if benign else (target in flagged if target else bool(flagged)),
                   "first_report": {p: [l[:220] for l in hit[p][1][:2]] for p in flagged + errored}}
-    print(n, "target", target, "flagged by", flagged, "errors", errored)
+    print(n, "BENIGN" if benign else "fault", "target", target, "flagged by", flagged, "errors", errored)
     json.dump(results, open(resf, "w"), indent=1)
